@@ -81,7 +81,8 @@ class Trace(object):
             elif e[0] == "drv":
                 out.append("drv:" + e[1])
             elif e[0] == "env":
-                out.append("env:" + ":".join(str(x) for x in e[1:]))
+                out.append("env:" + ":".join(
+                    str(x) for x in e[1:] if isinstance(x, (str, int))))
             elif e[0] == "fault":
                 out.append("fault:" + e[1])
         return out
